@@ -257,6 +257,65 @@ def build_optimized_pattern(choices: list[ChoiceChoice], repeat: str = "") -> st
     return "(?:" + "|".join(parts) + ")" + repeat
 
 
+def preserves_choice_order(choices: list[ChoiceChoice]) -> bool:
+    """Return True if the optimized pattern matches like the ordered choice.
+
+    `build_optimized_pattern` tries multi-character literals first (case
+    sensitive ones before case insensitive ones) and single character
+    alternatives last. That is only the same as trying the alternatives in
+    their original order if no alternative that has been moved back could
+    have matched a prefix of one that has been moved in front of it.
+    """
+    singles: list[ChoiceChoice] = []  # single character alternatives seen so far
+    insensitive: list[str] = []  # multi-character insensitive literals seen so far
+
+    for choice in choices:
+        if isinstance(choice, ChoiceLiteral) and len(choice.value) != 1:
+            value = choice.value
+            if not value:
+                # The empty literal always matches. Nothing may move past it.
+                if singles or insensitive:
+                    return False
+                continue
+
+            if any(_matches_char(single, value[0], choice.case) for single in singles):
+                return False
+
+            if choice.case == ChoiceCase.SENSITIVE:
+                folded = value.casefold()
+                if any(
+                    len(other) != len(value)
+                    and (folded.startswith(other) or other.startswith(folded))
+                    for other in insensitive
+                ):
+                    return False
+            else:
+                insensitive.append(value.casefold())
+        else:
+            singles.append(choice)
+
+    return True
+
+
+def _matches_char(choice: ChoiceChoice, char: str, case: ChoiceCase) -> bool:
+    """Return True if single character alternative `choice` can match `char`."""
+    chars = {char}
+    if case == ChoiceCase.INSENSITIVE:
+        chars.update((char.upper(), char.lower()))
+
+    match choice:
+        case UnicodePropertyRule(expression=RegexExpression(regex=regex)):
+            return any(regex.fullmatch(ch) for ch in chars)
+        case ChoiceLiteral(value=val, case=ChoiceCase.INSENSITIVE):
+            return bool(chars & {val, val.upper(), val.lower()})
+        case ChoiceLiteral(value=val):
+            return val in chars
+        case ChoiceRange(start, end):
+            low, high = sorted((start, end))
+            return any(low <= ch <= high for ch in chars)
+    return True
+
+
 def _optimize_char_class(singles: list[str], ranges: list[tuple[str, str]]) -> str:
     # Normalize ranges into codepoints
     norm_ranges: list[tuple[int, int]] = []
